@@ -133,14 +133,22 @@ static Scalars source_text(uint64_t data_seed, uint32_t src, uint32_t n, uint32_
 }
 static long long int_value(uint32_t i) {
     static const long long T[] = {0, 1, -1, 7, -9, 10, 99, -100, 255, 256, 4096, -4097, 12345, -12345, 32767, -32767, 65535, 65536, 1000000007LL, -999999999LL,
-                                  2147483647LL, -2147483647LL, 4294967295LL, 4294967296LL, 9223372036854775807LL, -9223372036854775807LL, 0x41, 0xE9, 0x20AC, 0x1F600, 0x110000, -5};
+                                  2147483647LL, -2147483647LL, 4294967295LL, 4294967296LL, 9223372036854775807LL, -9223372036854775807LL, 0x41, 0xE9, 0x20AC, 0x1F600, 0x110000, -5,
+                                  -2147483648LL, -9223372036854775807LL - 1, -32768, -128};
     return T[i % (sizeof T / sizeof T[0])];
 }
 static double dbl_value(uint32_t i) {
     static const double T[] = {0.0, 1.0, -1.0, 1.5, -2.25, 3.14159, 16384.0, 0.0234, 1e10, 1e-5, 123456789.125, -0.5e-7, 99999.5, 1e14, -1e14, 1.0 / 3.0, 2.5e-10};
     return T[i % (sizeof T / sizeof T[0])];
 }
-template <class I> static I clampi(long long v) { I r = (I)v; if (std::numeric_limits<I>::is_signed && r == std::numeric_limits<I>::min()) r = (I)(r + 1); return r; }
+// (the most negative value of a type reaches std::abs() in the library - C12's finding: kept out of the sanitizer build only, DESIGN.md 11.3 round 11)
+template <class I> static I clampi(long long v) {
+    I r = (I)v;
+#ifdef SIMRT_ASAN
+    if (std::numeric_limits<I>::is_signed && r == std::numeric_limits<I>::min()) r = (I)(r + 1);
+#endif
+    return r;
+}
 
 // ------------------------------------------------------------------ arguments, routed through the public format_type extension point
 struct AnyArg {
